@@ -697,3 +697,73 @@ def wide_output_mismatch(case, r):
             if o != [float(v) for v in row]:
                 return "%s output at sample %d is %s, call-by-value/per-call-site-state semantics gives %s" % (be, t, o, row)
     return None
+
+
+# ---------------------------------------------------------------------------------------------------------------------
+# programs OUTSIDE the Lmmm fragment: functions with MULTI-WORD parameters (tuples, nested tuples, records) that are read in
+# `if` / `match` arms, after the merge, in both arms, and across recursive calls.  Integer arithmetic only (no `%`, no comparison
+# on a projection: those are the recorded differences F62 / F46), so VM and WASM must agree bit for bit.
+def gen_tuple_param_source(rng):
+    r = rng
+    lits = ["1.0", "2.0", "3.0", "5.0", "10.0"]
+    shapes = {"t2": ("(float, float)", ["{p}.0", "{p}.1"], "let ({a}, {b}) = {p}", 2),
+              "t3": ("(float, float, float)", ["{p}.0", "{p}.1", "{p}.2"], "let ({a}, {b}, {c}) = {p}", 3),
+              "rec": ("{a: float, b: float}", ["{p}.a", "{p}.b"], "let {{a = {a}, b = {b}}} = {p}", 2),
+              "nest": ("(float, (float, float))", ["{p}.0", "{p}.1.0", "{p}.1.1"], "let ({a}, ({b}, {c})) = {p}", 3)}
+    def mkval(sh, xs):
+        if sh == "t2": return "(%s, %s)" % (xs[0], xs[1])
+        if sh == "t3": return "(%s, %s, %s)" % (xs[0], xs[1], xs[2])
+        if sh == "rec": return "{a = %s, b = %s}" % (xs[0], xs[1])
+        return "(%s, (%s, %s))" % (xs[0], xs[1], xs[2])
+    lines = ["fn cnt(i){ self + i }"]
+    calls = []
+    for fi in range(r.range(1, 3)):
+        sh = r.choice(list(shapes))
+        ty, projs, pat, n = shapes[sh]
+        P = "p"
+        def rd(k=None):
+            k = r.below(n) if k is None else k
+            return projs[k].format(p=P)
+        def arm(d=0):
+            c = r.below(6)
+            if c == 0:
+                names = ["u%d" % r.below(90), "w%d" % r.below(90), "z%d" % r.below(90)]
+                if len(set(names)) < 3: names = ["ua", "wb", "zc"]
+                return "{ %s\n      %s * 2.0 + %s }" % (pat.format(p=P, a=names[0], b=names[1], c=names[2]), names[0], names[1])
+            if c == 1: return "%s - %s" % (rd(), rd())
+            if c == 2: return "%s + x" % rd()
+            if c == 3: return "x * 3.0"                      # this arm does not read the parameter at all
+            if c == 4 and d == 0: return "(if (x > %s) { %s } else { %s })" % (r.choice(lits), arm(1), arm(1))
+            return "%s + mem(%s)" % (rd(), rd())
+        kind = r.below(4)
+        name = "tp%d" % fi
+        if kind == 0:       # first read inside an arm, again in the other arm
+            body = "  if (x > %s) { %s } else { %s }" % (r.choice(lits), arm(), arm())
+        elif kind == 1:     # read inside one arm, then after the merge
+            body = "  let r0 = if (x > %s) { %s } else { %s }\n  r0 + %s * 100.0" % (r.choice(lits), arm(), "x", rd())
+        elif kind == 2:     # match on an integer selector
+            body = "  let r0 = match sel { 0 => %s, 1 => %s, _ => %s }\n  r0 + %s" % (arm(1), arm(1), arm(1), rd())
+        else:               # recursion: the parameter is read after the recursive call returns
+            xs = [rd(k) + (" + 1.0" if k == 0 else "") for k in range(n)]
+            body = "  if (x > 0.0) { %s(%s, x - 1.0%s) * 2.0 + %s } else { %s }" % (name, mkval(sh, xs), "", rd(), rd())
+        if kind == 2:
+            lines.append("fn %s(%s: %s, x: float, sel: float) -> float {\n%s\n}" % (name, P, ty, body))
+        else:
+            lines.append("fn %s(%s: %s, x: float) -> float {\n%s\n}" % (name, P, ty, body))
+        for _ in range(r.range(1, 2)):
+            vals = [r.choice(["now", "now + 1.0", "cnt(1.0)", r.choice(lits), "now * 2.0"]) for _ in range(3)]
+            x = r.choice(["now", "now - 2.0", "3.0 - now", r.choice(lits), "cnt(2.0)"]) if kind != 3 else r.choice(["2.0", "3.0", "now", "1.0"])
+            if kind == 3 and x == "now": x = "min(now, 4.0)"
+            if kind == 2:
+                calls.append("%s(%s, %s, %s)" % (name, mkval(sh, vals), x, r.choice(["0.0", "1.0", "2.0", "min(now, 2.0)", "now - 1.0"])))
+            else:
+                calls.append("%s(%s, %s)" % (name, mkval(sh, vals), x))
+    lines.append("fn dsp(){\n  %s\n}" % " + ".join(calls))
+    return "\n".join(lines) + "\n"
+
+
+def tuple_param_stream(ck, iexe, n, n_samples, tag):
+    rng = ck.rng.fork("tparam-" + tag)
+    srcs = [gen_tuple_param_source(rng.fork(i)) for i in range(n)]
+    res = run_impl(iexe, [{"src": s, "n": n_samples, "state": True, "typecheck": True} for s in srcs])
+    return list(zip(srcs, res))
